@@ -1402,11 +1402,16 @@ class SyncObj(object):
     def __loadDumpFile(self, clearJournal):
         try:
             data = self.__serializer.deserialize()
-            if clearJournal and data[1][1] <= self.__raftLastApplied:
-                # A snapshot received from the leader that is not newer than what this node has
-                # already applied (the leader's view of this node was outdated): loading it would
-                # move the state machine backwards and re-apply entries.
-                return data[1][1]
+            if clearJournal:
+                # A snapshot received from the leader is not loaded when it is not newer than what
+                # this node has already applied (loading it would move the state machine backwards
+                # and re-apply entries), or when the log already holds the snapshot's last entry
+                # (the log up to there matches the leader's, and clearing the journal would drop
+                # the entries after it, which this node may already have acknowledged).
+                sameIdxEntries = self.__getEntries(data[1][1], 1)
+                if data[1][1] <= self.__raftLastApplied or \
+                        (sameIdxEntries and sameIdxEntries[0][2] == data[1][2]):
+                    return data[1][1]
             if data[0] is not None:
                 if self.__consumers:
                     selfData = data[0][0]
